@@ -87,7 +87,11 @@ class C09(Prop):
         before = {s: [T.extract(t) for t in ts] for s, ts in built.items()}
         dests_order = {s: [list(t.metadata.destinations) for t in ts] for s, ts in built.items()}
         styles = {"none": False, "default": True, "custom": CUSTOM_STYLE}[case["styles"]]
-        arg = built if not case["single"] else built[sheets[0][0]]
+        if case["single"]:
+            arg = built[sheets[0][0]]
+        else:
+            # a sheet with a single table may be given as the bare Table instead of a list
+            arg = {s: (ts[0] if len(ts) == 1 and len(s) % 2 == 1 else ts) for s, ts in built.items()}
         obs = {"dests_order": dests_order}
         tmp = None
         try:
